@@ -1,7 +1,7 @@
 """C03 - parent, get_as and / navigate one consistent hierarchy"""
 from ..rules import exc, config, sidops, pathops, identity, mutation
 
-DECIDES = ("every '/'-prefix of every template is owned by a type with compatible patterns (R-PREFIX / R-PATSUP on the folded, extrapolated and pattern-replaced tables); accessor shapes: parent = get_as(second-to-last key) with the untyped and one-field fallbacks, get_as copies the pairs up to and including the key and rebuilds through the factory, keytype / basetype / len / '/' (R-NAV); field order of path-built Sids (R-KEYTYPES, R-KEYORDER); untyped fallbacks never raise (R-EXC on the navigation entry points).")
+DECIDES = ("every '/'-prefix of every template is owned by a type with compatible patterns (R-PREFIX / R-PATSUP on the folded, extrapolated and pattern-replaced tables); accessor shapes: parent = get_as(second-to-last key) with the untyped and one-field fallbacks, get_as copies the pairs up to and including the key and rebuilds through the factory, keytype / basetype / len / '/' (R-NAV); field order of path-built Sids (R-KEYTYPES, R-KEYORDER); untyped fallbacks never raise (R-EXC on the navigation entry points). The typing of every prefix string is R-FIRST's (first template in configuration order, canonical rendering).")
 DOES_NOT_DECIDE = 'that the prefix string re-resolves to the same values (regular-expression evaluation)'
 
 
@@ -16,4 +16,5 @@ def rules(ctx, tier):
         lambda: mutation.rule_triple(ctx),
         lambda: mutation.rule_esc(ctx),
         lambda: config.rule_sidamb(ctx),
+        lambda: config.rule_first(ctx),
     ]
